@@ -460,7 +460,9 @@ func slicesEqual(x, y any) (err error) {
 		// Get primitives out of the way
 		var tried bool
 		if tried, err = primitivesEqual(xv, yv); tried {
-			return
+			// verdict (err) is in; on to the next
+			// index, unless a mismatch was found.
+			continue
 		}
 
 		err = valuesEqual(xv, yv)
